@@ -100,6 +100,23 @@ def literals(tier, rng, cfg):
             for sp in (b"\\\"", b"\\\\", b"\\n", b"\\", b"\"", b"\x00", b"\\u0041", b"\\101", b"\\q"):
                 out.append(b"\"" + base[:p] + sp + base[p:] + b"\"")
                 out.append(b"\"" + base[:p] + sp + base[p:] + b"\" \\c \"x\\\\\"")
+    # every byte value directly after a backslash (the escape selector), alone and as the lead byte of a valid UTF-8
+    # character, and every byte value at each of the four positions of a \u escape and of the three of an octal escape
+    for b in range(256):
+        if b in (0x22,):
+            continue  # \" is covered above; a quote here would end the literal elsewhere
+        out.append(b"\"a\\" + bytes([b]) + b"b\"")
+        out.append(b"\"\\" + bytes([b]) + b"\x82\xb0 tail\"")
+        for pos in range(4):
+            hx = bytearray(b"00e9")
+            hx[pos] = b
+            if b != 0x22 and b != 0x5C:
+                out.append(b"\"x\\u" + bytes(hx) + b"y\"")
+        for pos in range(3):
+            oc = bytearray(b"101")
+            oc[pos] = b
+            if b != 0x22 and b != 0x5C:
+                out.append(b"\"\\" + bytes(oc) + b"z\"")
     for _ in range(500 if tier == "quick" else 5000):
         n = rng.choice([3, 10, 16, 17, 40, 300])
         body = b"".join(rng.choice([b"a", b"\\\"", b"\\\\", b"\\n", b"\\t", b"\\r", b"\\f", b"\\b", b"\\u00e9", b"\\u4e2d", b"\\ud800", b"\\u12", b"\\7", b"\\18",
